@@ -9,7 +9,6 @@ import (
 	"fmt"
 	"net"
 	"sort"
-	"strconv"
 	"strings"
 
 	"github.com/pion/transport/v4"
@@ -67,20 +66,36 @@ type stubNet struct {
 	lastNetwork string
 	lastAddr    string
 	binds       int
+	cachedHost  string
+	cachedIP    net.IP
+	pc          stubPacketConn // reused: the generators only call LocalAddr/Close
+	ln          stubListener
 }
 
-func parseHostPort(address string) (net.IP, int) {
+// parseHostPort splits "host:port" / "[host]:port"; the host is parsed once
+// and cached (the sweep binds the same host 8.6e9 times).
+func (s *stubNet) parseHostPort(address string) (net.IP, int) {
 	i := strings.LastIndexByte(address, ':')
 	if i < 0 {
 		panic("harness: stub: address without port: " + address)
 	}
-	port, err := strconv.Atoi(address[i+1:])
-	if err != nil {
-		panic("harness: stub: bad port in " + address)
+	port := 0
+	if i+1 == len(address) {
+		panic("harness: stub: empty port in " + address)
 	}
-	host := strings.Trim(address[:i], "[]")
+	for _, ch := range []byte(address[i+1:]) {
+		if ch < '0' || ch > '9' || port > 99999 {
+			panic("harness: stub: bad port in " + address)
+		}
+		port = port*10 + int(ch-'0')
+	}
+	host := address[:i]
+	if host != s.cachedHost || s.cachedIP == nil {
+		s.cachedHost = host
+		s.cachedIP = net.ParseIP(strings.Trim(host, "[]"))
+	}
 
-	return net.ParseIP(host), port
+	return s.cachedIP, port
 }
 
 type stubPacketConn struct {
@@ -106,13 +121,14 @@ func (l *stubListener) Close() error   { l.closed = true; return nil }
 func (s *stubNet) ListenPacket(network, address string) (net.PacketConn, error) {
 	s.lastNetwork, s.lastAddr = network, address
 	s.binds++
-	ip, port := parseHostPort(address)
+	s.pc.ip, s.pc.port = s.parseHostPort(address)
+	s.pc.closed = false
 
-	return &stubPacketConn{ip: ip, port: port}, nil
+	return &s.pc, nil
 }
 
 func (s *stubNet) ResolveTCPAddr(_, address string) (*net.TCPAddr, error) {
-	ip, port := parseHostPort(address)
+	ip, port := s.parseHostPort(address)
 
 	return &net.TCPAddr{IP: ip, Port: port}, nil
 }
@@ -124,9 +140,10 @@ type stubLC struct{ s *stubNet }
 func (l stubLC) Listen(_ context.Context, network, address string) (net.Listener, error) {
 	l.s.lastNetwork, l.s.lastAddr = network, address
 	l.s.binds++
-	ip, port := parseHostPort(address)
+	l.s.ln.ip, l.s.ln.port = l.s.parseHostPort(address)
+	l.s.ln.closed = false
 
-	return &stubListener{ip: ip, port: port}, nil
+	return &l.s.ln, nil
 }
 
 func (l stubLC) ListenPacket(context.Context, string, string) (net.PacketConn, error) {
